@@ -834,8 +834,9 @@ class VC:
                     continue
                 if isinstance(obj, VList) and isinstance(ref, Ref) and sl.lower is not None and sl.upper is None and sl.step is None:
                     k = P.deref(self.ev(sl.lower, P))     # del a[k:]  (truncate)
-                    self.oblige(f'del-suffix-bounds@{st.lineno}', P, And(0 <= k, k <= obj.n), line=st.lineno)
-                    P.heap[ref.id] = VList(obj.arr, k, obj.kind)
+                    self.oblige(f'del-suffix-bounds@{st.lineno}', P, 0 <= k, line=st.lineno)      # negative bounds not modelled
+                    kk = min(k, obj.n) if (isinstance(k, int) and isinstance(obj.n, int)) else If(k <= obj.n, k, obj.n)      # Python clamps at len
+                    P.heap[ref.id] = VList(obj.arr, kk, obj.kind)
                     continue
             if isinstance(t, ast.Subscript) and not isinstance(t.slice, ast.Slice):
                 ref = self.ev(t.value, P); obj = P.deref(ref)
